@@ -288,7 +288,6 @@ impl Ctx {
         }
     }
 }
-const CTXS: [Ctx; 4] = [Ctx::Where, Ctx::Emit, Ctx::Having, Ctx::Pattern];
 
 /// Operand source: event field or literal.
 #[derive(Clone, Debug)]
